@@ -404,14 +404,22 @@ class TD3(RLAlgorithm):
     ) -> Tuple[Optional[float], float]:
         """Updates agent network parameters to learn from experiences.
 
-        :param experience: List of batched states, actions, rewards, next_states, dones in that order.
-        :type experience: list[torch.Tensor[float]]
+        :param experiences: TensorDict of batched observations, actions, rewards, next_observations, dones
+            (as sampled from a replay buffer), or the same five items as a tuple in that order.
+        :type experiences: tensordict.TensorDict or tuple[torch.Tensor[float], ...]
         :param noise_clip: Maximum noise limit to apply to actions, defaults to 0.5
         :type noise_clip: float, optional
         :param policy_noise: Standard deviation of noise applied to policy, defaults to 0.2
         :type policy_noise: float, optional
         """
-        states, actions, rewards, next_states, dones = experiences
+        if isinstance(experiences, (tuple, list)):
+            states, actions, rewards, next_states, dones = experiences
+        else:
+            states = experiences["obs"]
+            actions = experiences["action"]
+            rewards = experiences["reward"]
+            next_states = experiences["next_obs"]
+            dones = experiences["done"]
 
         actions = actions.to(self.device)
         rewards = rewards.to(self.device)
